@@ -1448,16 +1448,109 @@ def _iter_adapt(name):
                 if r:
                     return some(x)
             return NONE
+        if name == "nth":
+            k = deref(a[1])
+            if is_sym(k):
+                raise Unsupported("nth with symbolic index")
+            if isinstance(it, PyIter) and not isinstance(it, LazyIter):
+                # consumes the first k + 1 items of the underlying iterator
+                got = some(xs[k]) if k < len(xs) else NONE
+                it.pos = min(len(it.items), it.pos + k + 1)
+                return got
+            return some(xs[k]) if k < len(xs) else NONE
+        if name == "step_by":
+            k = deref(a[1])
+            if is_sym(k):
+                raise Unsupported("step_by with symbolic step")
+            if k == 0:
+                raise Panic("assertion failed: step != 0")
+            return PyIter(list(xs)[::k])
+        if name in ("min_by", "max_by"):
+            if not xs:
+                return NONE
+            best = xs[0]
+            for x in xs[1:]:
+                o = deref(m.call_value(a[1], [best, x]))
+                if isinstance(o, Term):
+                    raise Unsupported("%s with symbolic order" % name)
+                # Rust: max_by keeps the last of equal maxima, min_by the first of equal minima
+                if (name == "max_by" and o.variant != "Greater") or (name == "min_by" and o.variant == "Greater"):
+                    best = x
+            return some(best)
+        if name == "flatten":
+            out = []
+            for x in xs:
+                out.extend(items_of(x))
+            return PyIter(out)
+        if name == "inspect":
+            for x in xs:
+                m.call_value(a[1], [x])
+            return PyIter(list(xs))
+        if name == "product":
+            s = 1
+            for x in xs:
+                s = m.binop("Mul", s, x, "usize") if not (is_sym(s) or is_sym(x)) else Term("mul", s, x)
+            return s
+        if name == "partition":
+            yes, no = [], []
+            for x in xs:
+                r = m.call_value(a[1], [x])
+                if isinstance(r, Term):
+                    r = m.decide(r)
+                (yes if r else no).append(x)
+            return (PyVec(yes), PyVec(no))
+        if name == "rposition":
+            for i in range(len(xs) - 1, -1, -1):
+                r = m.call_value(a[1], [xs[i]])
+                if isinstance(r, Term):
+                    r = m.decide(r)
+                if r:
+                    return some(i)
+            return NONE
+        if name == "reduce":
+            if not xs:
+                return NONE
+            acc = xs[0]
+            for x in xs[1:]:
+                acc = m.call_value(a[1], [acc, x])
+            return some(acc)
+        if name == "map_while":
+            out = []
+            for x in xs:
+                r = deref(m.call_value(a[1], [x]))
+                if is_sym(r):
+                    raise Unsupported("map_while with symbolic result")
+                if r.variant == "None":
+                    break
+                out.append(r.fields["0"])
+            return PyIter(out)
+        if name in ("lt", "le", "gt", "ge"):
+            r = _cmp_vals(PyVec(list(xs)), PyVec(list(items_of(a[1]))), m)
+            if isinstance(r, Term):
+                raise Unsupported("symbolic iterator comparison")
+            return {"lt": r.variant == "Less", "le": r.variant != "Greater", "gt": r.variant == "Greater", "ge": r.variant != "Less"}[name]
+        if name == "is_sorted":
+            for x, y in zip(xs, xs[1:]):
+                o = _cmp_vals(x, y, m)
+                if isinstance(o, Term):
+                    raise Unsupported("symbolic ordering in is_sorted")
+                if o.variant == "Greater":
+                    return False
+            return True
         raise Unsupported("iterator adaptor %s" % name)
     return h
 
 
 for _nm in ["enumerate", "rev", "map", "filter", "flat_map", "find_map", "filter_map", "cloned", "copied", "chain", "zip",
             "skip", "take", "take_while", "skip_while", "collect", "count", "sum", "all", "any", "fold", "for_each", "max", "min",
-            "last", "unzip", "position", "find", "cmp", "partial_cmp", "eq", "ne", "by_ref", "peekable", "fuse", "max_by_key", "min_by_key", "try_fold", "try_for_each"]:
+            "last", "unzip", "position", "find", "cmp", "partial_cmp", "eq", "ne", "by_ref", "peekable", "fuse", "max_by_key", "min_by_key", "try_fold", "try_for_each",
+            "nth", "step_by", "min_by", "max_by", "flatten", "inspect", "product", "partition", "reduce", "map_while", "lt", "le", "gt", "ge",
+            "is_sorted"]:
     TRAIT_TABLE[("std::iter::Iterator", _nm)] = _iter_adapt(_nm)
     SEMANTIC_FIRST.add(("std::iter::Iterator", _nm))
 TRAIT_TABLE[("std::iter::DoubleEndedIterator", "rev")] = _iter_adapt("rev")
+TRAIT_TABLE[("std::iter::DoubleEndedIterator", "rposition")] = _iter_adapt("rposition")
+TRAIT_TABLE[("std::iter::Iterator", "rposition")] = _iter_adapt("rposition")
 
 
 @treg("std::iter::ExactSizeIterator", "len", first=True)
@@ -3035,3 +3128,302 @@ def _abs_locktime_display(m, a, c):
     else:
         f.out.append(str(n))
     return FMT_OK
+
+
+# ---- further std models (added so that a rewritten function using another std idiom is evaluated, not "unanalysable") --------
+
+def _need_concrete(v, what):
+    if is_sym(v):
+        raise Unsupported("%s on a symbolic value" % what)
+    return v
+
+
+def _truth(m, r):
+    if isinstance(r, Term):
+        r = m.decide(r)
+    return bool(r)
+
+
+@reg("std::option::Option::<T>::filter")
+def _opt_filter(m, a, c):
+    v = _need_concrete(deref(a[0]), "Option::filter")
+    if v.variant == "Some" and _truth(m, m.call_value(a[1], [v.fields["0"]])):
+        return v
+    return NONE
+
+
+@reg("std::option::Option::<T>::is_some_and")
+def _opt_is_some_and(m, a, c):
+    v = _need_concrete(deref(a[0]), "Option::is_some_and")
+    return v.variant == "Some" and _truth(m, m.call_value(a[1], [v.fields["0"]]))
+
+
+@reg("std::option::Option::<T>::is_none_or")
+def _opt_is_none_or(m, a, c):
+    v = _need_concrete(deref(a[0]), "Option::is_none_or")
+    return v.variant == "None" or _truth(m, m.call_value(a[1], [v.fields["0"]]))
+
+
+@reg("std::option::Option::<T>::and")
+def _opt_and(m, a, c):
+    v = _need_concrete(deref(a[0]), "Option::and")
+    return a[1] if v.variant == "Some" else NONE
+
+
+@reg("std::option::Option::<T>::xor")
+def _opt_xor(m, a, c):
+    v, w = _need_concrete(deref(a[0]), "Option::xor"), _need_concrete(deref(a[1]), "Option::xor")
+    if (v.variant == "Some") != (w.variant == "Some"):
+        return v if v.variant == "Some" else w
+    return NONE
+
+
+@reg("std::option::Option::<std::option::Option<T>>::flatten")
+def _opt_flatten(m, a, c):
+    v = _need_concrete(deref(a[0]), "Option::flatten")
+    return deref(v.fields["0"]) if v.variant == "Some" else NONE
+
+
+@reg("std::result::Result::<T, E>::map_or")
+def _res_map_or(m, a, c):
+    v = _need_concrete(deref(a[0]), "Result::map_or")
+    return m.call_value(a[2], [v.fields["0"]]) if v.variant == "Ok" else a[1]
+
+
+@reg("std::result::Result::<T, E>::map_or_else")
+def _res_map_or_else(m, a, c):
+    v = _need_concrete(deref(a[0]), "Result::map_or_else")
+    return m.call_value(a[2], [v.fields["0"]]) if v.variant == "Ok" else m.call_value(a[1], [v.fields["0"]])
+
+
+@reg("std::result::Result::<T, E>::or_else")
+def _res_or_else(m, a, c):
+    v = _need_concrete(deref(a[0]), "Result::or_else")
+    return v if v.variant == "Ok" else m.call_value(a[1], [v.fields["0"]])
+
+
+@reg("std::result::Result::<T, E>::unwrap_or_else")
+def _res_unwrap_or_else(m, a, c):
+    v = _need_concrete(deref(a[0]), "Result::unwrap_or_else")
+    return v.fields["0"] if v.variant == "Ok" else m.call_value(a[1], [v.fields["0"]])
+
+
+@reg("std::result::Result::<T, E>::is_ok_and")
+def _res_is_ok_and(m, a, c):
+    v = _need_concrete(deref(a[0]), "Result::is_ok_and")
+    return v.variant == "Ok" and _truth(m, m.call_value(a[1], [v.fields["0"]]))
+
+
+@reg("std::result::Result::<T, E>::is_err_and")
+def _res_is_err_and(m, a, c):
+    v = _need_concrete(deref(a[0]), "Result::is_err_and")
+    return v.variant == "Err" and _truth(m, m.call_value(a[1], [v.fields["0"]]))
+
+
+@reg("std::result::Result::<T, E>::and")
+def _res_and(m, a, c):
+    v = _need_concrete(deref(a[0]), "Result::and")
+    return a[1] if v.variant == "Ok" else v
+
+
+@reg("std::result::Result::<T, E>::or")
+def _res_or(m, a, c):
+    v = _need_concrete(deref(a[0]), "Result::or")
+    return v if v.variant == "Ok" else a[1]
+
+
+@reg("std::result::Result::<T, E>::unwrap_err", "std::result::Result::<T, E>::expect_err")
+def _res_unwrap_err(m, a, c):
+    v = _need_concrete(deref(a[0]), "Result::unwrap_err")
+    if v.variant == "Err":
+        return v.fields["0"]
+    raise Panic("unwrap_err on Ok")
+
+
+@reg("std::result::Result::<T, E>::as_ref", "std::result::Result::<T, E>::as_mut", "std::result::Result::<&T, E>::copied",
+     "std::result::Result::<&T, E>::cloned")
+def _res_as_ref(m, a, c):
+    return deref(a[0])
+
+
+def _cmp_by(m, f):
+    import functools
+
+    def cmpf(x, y):
+        r = deref(m.call_value(f, [x, y]))
+        if isinstance(r, Term):
+            raise Unsupported("symbolic ordering")
+        return {"Less": -1, "Equal": 0, "Greater": 1}[r.variant]
+    return functools.cmp_to_key(cmpf)
+
+
+@reg("core::slice::<impl [T]>::sort_by", "std::slice::<impl [T]>::sort_by", "core::slice::<impl [T]>::sort_unstable_by")
+def _sort_by(m, a, c):
+    v = _need_concrete(deref(a[0]), "sort_by")
+    v.items.sort(key=_cmp_by(m, a[1]))
+    return ()
+
+
+def _bsearch(m, v, probe):
+    """the standard library's binary search; probe(item) -> Ordering of the item relative to the target"""
+    size = len(v.items)
+    if size == 0:
+        return err(0)
+    base = 0
+    while size > 1:
+        half = size // 2
+        mid = base + half
+        o = probe(v.items[mid])
+        if o != "Greater":
+            base = mid
+        size -= half
+    o = probe(v.items[base])
+    if o == "Equal":
+        return ok(base)
+    return err(base + (1 if o == "Less" else 0))
+
+
+def _ord_name(r):
+    r = deref(r)
+    if isinstance(r, Term):
+        raise Unsupported("symbolic ordering in binary search")
+    return r.variant
+
+
+@reg("core::slice::<impl [T]>::binary_search_by", "std::slice::<impl [T]>::binary_search_by")
+def _slice_binary_search_by(m, a, c):
+    v = _need_concrete(deref(a[0]), "binary_search_by")
+    return _bsearch(m, v, lambda it: _ord_name(m.call_value(a[1], [it])))
+
+
+@reg("core::slice::<impl [T]>::binary_search_by_key", "std::slice::<impl [T]>::binary_search_by_key")
+def _slice_binary_search_by_key(m, a, c):
+    v = _need_concrete(deref(a[0]), "binary_search_by_key")
+    return _bsearch(m, v, lambda it: _ord_name(_cmp_vals(m.call_value(a[2], [it]), a[1], m)))
+
+
+@reg("core::slice::<impl [T]>::starts_with", "std::slice::<impl [T]>::starts_with")
+def _slice_starts_with(m, a, c):
+    v, w = items_of(a[0]), items_of(a[1])
+    return len(w) <= len(v) and all(_keys_equal(x, y, m) for x, y in zip(v, w))
+
+
+@reg("core::slice::<impl [T]>::ends_with", "std::slice::<impl [T]>::ends_with")
+def _slice_ends_with(m, a, c):
+    v, w = items_of(a[0]), items_of(a[1])
+    return len(w) <= len(v) and all(_keys_equal(x, y, m) for x, y in zip(v[len(v) - len(w):], w))
+
+
+@reg("core::slice::<impl [T]>::split_at", "std::slice::<impl [T]>::split_at")
+def _slice_split_at(m, a, c):
+    v = _need_concrete(deref(a[0]), "split_at")
+    k = _need_concrete(deref(a[1]), "split_at")
+    if k > len(v.items):
+        raise Panic("split_at: mid %d > len %d" % (k, len(v.items)))
+    return (PyVec(v.items[:k]), PyVec(v.items[k:]))
+
+
+@reg("core::slice::<impl [T]>::split_first", "std::slice::<impl [T]>::split_first")
+def _slice_split_first(m, a, c):
+    v = _need_concrete(deref(a[0]), "split_first")
+    return some((v.items[0], PyVec(v.items[1:]))) if v.items else NONE
+
+
+@reg("core::slice::<impl [T]>::split_last", "std::slice::<impl [T]>::split_last")
+def _slice_split_last(m, a, c):
+    v = _need_concrete(deref(a[0]), "split_last")
+    return some((v.items[-1], PyVec(v.items[:-1]))) if v.items else NONE
+
+
+@reg("core::slice::<impl [T]>::chunks", "std::slice::<impl [T]>::chunks")
+def _slice_chunks(m, a, c):
+    v = _need_concrete(deref(a[0]), "chunks")
+    k = _need_concrete(deref(a[1]), "chunks")
+    if k == 0:
+        raise Panic("chunk size must be non-zero")
+    return PyIter([PyVec(v.items[i:i + k]) for i in range(0, len(v.items), k)])
+
+
+@reg("core::slice::<impl [T]>::swap", "std::slice::<impl [T]>::swap")
+def _slice_swap(m, a, c):
+    v = _need_concrete(deref(a[0]), "swap")
+    i, j = deref(a[1]), deref(a[2])
+    if not (0 <= i < len(v.items) and 0 <= j < len(v.items)):
+        raise Panic("index out of bounds in swap")
+    v.items[i], v.items[j] = v.items[j], v.items[i]
+    return ()
+
+
+@reg("core::slice::<impl [T]>::is_sorted", "std::slice::<impl [T]>::is_sorted")
+def _slice_is_sorted(m, a, c):
+    v = items_of(a[0])
+    for x, y in zip(v, v[1:]):
+        o = _cmp_vals(x, y, m)
+        if isinstance(o, Term):
+            raise Unsupported("symbolic ordering in is_sorted")
+        if o.variant == "Greater":
+            return False
+    return True
+
+
+@reg("std::vec::Vec::<T, A>::retain")
+def _vec_retain(m, a, c):
+    v = _need_concrete(deref(a[0]), "retain")
+    v.items[:] = [x for x in v.items if _truth(m, m.call_value(a[1], [x]))]
+    return ()
+
+
+@reg("std::vec::Vec::<T, A>::remove")
+def _vec_remove(m, a, c):
+    v = _need_concrete(deref(a[0]), "remove")
+    i = deref(a[1])
+    if not 0 <= i < len(v.items):
+        raise Panic("removal index (is %d) should be < len (is %d)" % (i, len(v.items)))
+    return v.items.pop(i)
+
+
+@reg("std::vec::Vec::<T, A>::swap_remove")
+def _vec_swap_remove(m, a, c):
+    v = _need_concrete(deref(a[0]), "swap_remove")
+    i = deref(a[1])
+    if not 0 <= i < len(v.items):
+        raise Panic("swap_remove index (is %d) should be < len (is %d)" % (i, len(v.items)))
+    v.items[i], v.items[-1] = v.items[-1], v.items[i]
+    return v.items.pop()
+
+
+@reg("std::vec::Vec::<T, A>::clear")
+def _vec_clear(m, a, c):
+    v = _need_concrete(deref(a[0]), "clear")
+    del v.items[:]
+    return ()
+
+
+@reg("std::vec::Vec::<T, A>::append")
+def _vec_append(m, a, c):
+    v, w = _need_concrete(deref(a[0]), "append"), _need_concrete(deref(a[1]), "append")
+    v.items.extend(w.items)
+    del w.items[:]
+    return ()
+
+
+@reg("std::vec::Vec::<T, A>::extend_from_slice")
+def _vec_extend_from_slice(m, a, c):
+    v = _need_concrete(deref(a[0]), "extend_from_slice")
+    v.items.extend(dcopy(x) for x in items_of(a[1]))
+    return ()
+
+
+@reg("std::vec::Vec::<T, A>::dedup_by_key")
+def _vec_dedup_by_key(m, a, c):
+    v = _need_concrete(deref(a[0]), "dedup_by_key")
+    out = []
+    last = None
+    for x in v.items:
+        k = m.call_value(a[1], [x])
+        if out and _keys_equal(k, last, m):
+            continue
+        out.append(x)
+        last = k
+    v.items[:] = out
+    return ()
